@@ -27,6 +27,18 @@ NOTES = {
  "C14-seed3": "caught by C14 as it stood (freshness of salts / keys across the run)",
  "C18-seed3": "a race between two threads inside a newly introduced, unhooked RwLock-protected memo: outside what the exhaustive engines can own (no scheduling point). Missed by C18 as it stood; reported since the SUPPLEMENTARY free-running pass `display~par` (4 cases at the same time; sampled interleavings, absolute oracle) was added - a detection by sampling, stated as such",
  "C11-seed3": "caught by C11 as it stood (the explorer clones the workbook per node, and clones share the loaded string table); C11 now also has the explicit operation `fork`; C12 missed it (its histories materialise sheets one by one, never through read_sheet_collection)",
+ "C02-seed4": "missed by C02 as it stood (exit 0: no workbook went through cleanup() before the save) but caught by C10 (save-emission); C02 catches it since the `post-ops` space was added",
+ "C03-seed4": "caught by C03 as it stood (corpus: issue_162.xlsx holds a sheet-scoped name that points at another sheet)",
+ "C04-seed4": "missed by C04 and C02 as they stood (no sheet carried both OLE objects and a table); caught by C02 since the `corpus-second-session` space (every corpus file gets a table / comment / link on every sheet) and the relationship-type check for oleObject were added - the same space found the genuine defect C02-K4 (tableParts written in front of oleObjects) on the unchanged tree; after its repair f0c38c3 the seed no longer applies",
+ "C05-seed4": "caught by C05 as it stood (dims space: hole in the column entries followed by a repeat)",
+ "C06-seed4": "missed by C06 as it stood (comment authors cycled A, B, empty); caught since the author sequence interleaves (A, B, A, C, ...)",
+ "C08-seed4": "caught by C08 as it stood (core formulas with qualified intersections and depth-3 histories, added for f0290bf); C09 is not concerned",
+ "C09-seed4": "missed by C09 as it stood (only an INSERT on another sheet was an identity path, and no formula sat on the sheet its qualified references name) but caught by C08; C09 catches it since the clause identity-edits-on-other-sheet was added",
+ "C13-seed4": "missed by C13 as it stood (exit 0: every destination was a plain file); caught since the target scenarios dest-is-symlink / dest-is-hardlinked (healthy and under a write fault) were added",
+ "C16-seed4": "caught by C16 as it stood (3-saver configurations, preemption bound 2)",
+ "C17-seed4": "caught by C17 as it stood (complete enumeration of all 16384 columns)",
+ "C19-seed4": "missed by C19 as it stood (exit 0: only finite numbers were formatted); caught since every case of the families space starts with a prelude of NaN / inf / non-numeric values under percent and decimal patterns",
+ "C20-seed4": "caught by C20 as it stood (special value dquote / apos at the end of a value)",
  "C09-seed2": "caught by C09 as it stood (translate clause: a reference leaving the grid followed by another reference) and by C03 (shared-edge family)",
 
  "C11-seed1": "missed by the check as it stood when the seed arrived (exit 0: no operation of the alphabet made a materialised sheet need a NEW numbered dependent part); caught after the edit operation also adds a comment (clause saved-content-equals-eager, the unloaded sheet's comments are replaced)",
